@@ -23,7 +23,9 @@ COQ = os.path.join(VERIF, "coq")
 THEORIES = os.path.join(COQ, "theories")
 BUILD = os.path.join(VERIF, "build")
 REPLAYS = os.path.join(VERIF, "replays")
-EVIDENCE = os.path.join(VERIF, "evidence")
+# evidence/<id>.json describes runs against /repo itself; a run against another tree (VERIF_REPO=<scratch worktree>, used
+# when trying seeded changes) writes its record under build/ so that it can never be committed in place of the real one
+EVIDENCE = os.path.join(VERIF, "evidence") if os.path.realpath(REPO) == "/repo" else os.path.join(VERIF, "build", "evidence_other_tree")
 NCPU = min(16, os.cpu_count() or 4)
 COQ_WARN = ["-w", "-notation-overridden,-deprecated-syntactic-definition,-deprecated-hint-rewrite-without-locality"]
 
